@@ -62,6 +62,15 @@ def handle (op : String) (a r : Json) : Except String Reply := do
            why := if holds then "" else "verdict differs from: parsed ∧ pin ∧ chain ∧ valid ∧ usage ∧ name",
            sig := if holds then "" else
              (if acc then "C09/verify/admissible-peer-refused" else "C09/verify/inadmissible-peer-accepted") }
+  | "verifyseq" =>
+    -- every handshake is judged on its own certificate: the pinned one is accepted, the other refused,
+    -- whatever the verifier has seen before
+    let seq ← getStrList a "seq"
+    let m := jObj [("accepts", jArr (seq.map fun w => Json.bool (w == "A")))]
+    let holds := r == m
+    pure { m := m, prop := some holds,
+           why := if holds then "" else "a verifier serving several handshakes did not judge each certificate against the pins on its own",
+           sig := if holds then "" else "C09/verifyseq/pin-decision-depends-on-earlier-handshakes" }
   | _ => throw s!"bad-op cert {op}"
 
 end Receptor.Drive.Cert
